@@ -195,8 +195,17 @@ func (box *boxTracker) compactRules(rules []css_ast.Rule, keyRange logger.Range,
 		rules[side.ruleIndex] = css_ast.Rule{}
 	}
 
-	// Insert the combined declaration where the last rule was
-	rules[box.sides[3].ruleIndex] = css_ast.Rule{Loc: minLoc, Data: &css_ast.RDeclaration{
+	// Insert the combined declaration where the last of these rules was. It
+	// must not be inserted any earlier than that because there may be other
+	// declarations for these properties in between that were not removed
+	// (e.g. "margin: 0; margin-bottom: 1vw; margin-bottom: 0").
+	lastIndex := box.sides[0].ruleIndex
+	for _, side := range box.sides[1:] {
+		if side.ruleIndex > lastIndex {
+			lastIndex = side.ruleIndex
+		}
+	}
+	rules[lastIndex] = css_ast.Rule{Loc: minLoc, Data: &css_ast.RDeclaration{
 		Key:       box.key,
 		KeyText:   box.keyText,
 		Value:     tokens,
